@@ -121,10 +121,7 @@ func (ga *Http2Assembler) readMessage() (streamID uint32, messageHTTP1 interface
 	status := headersHTTP1.Get(":status")
 
 	// gRPC detection
-	grpcStatus := headersHTTP1.Get("Grpc-Status")
-	if grpcStatus != "" || strings.Contains(headersHTTP1.Get("Content-Type"), "application/grpc") {
-		isGrpc = true
-	}
+	isGrpc = isGrpcHeader(headersHTTP1)
 
 	if method != "" {
 		messageHTTP1 = http.Request{
@@ -160,6 +157,12 @@ func (ga *Http2Assembler) readMessage() (streamID uint32, messageHTTP1 interface
 	}
 
 	return
+}
+
+// isGrpcHeader reports whether the header fields of one half of a stream carry a gRPC content
+// type or a grpc-status field.
+func isGrpcHeader(headers http.Header) bool {
+	return headers.Get("Grpc-Status") != "" || strings.Contains(headers.Get("Content-Type"), "application/grpc")
 }
 
 func (ga *Http2Assembler) isStreamEnd(frame http2.Frame) bool {
